@@ -193,6 +193,70 @@ Theorem c07_end_dropped_when_append_fails_refuted :
 Proof. exact end_dropped_refuted. Qed.
 Print Assumptions c07_end_dropped_when_append_fails_refuted.
 
+(* RUN_ENDED IS UNCONDITIONAL ON SIDE WRITES.  Besides the log, the end of a run makes best-effort writes that can fail -
+   the snapshot (write_snapshot), the thread's sidecar / index caches, artifacts, checkpoints: disk full, a read-only data
+   directory, a tool that put something else where the target should be.  `act_events_x gate swf aok a` = the activity with
+   the exit GATE (the side writes whose failure the code lets suppress append_run_ended) and the failure pattern
+   `swf : session id -> side_write -> bool` (which side write fails in which run - a damaged directory fails every later run
+   too) as parameters.  With nothing in the gate, for EVERY failure pattern, every set of activities and every schedule:
+   every run announced on the thread has exactly one run_ended … *)
+Theorem c07_lifecycle_complete_under_failing_side_writes :
+  forall (gate : list side_write) (swf : N -> side_write -> bool) (aok : ck -> bool) (acts : list act) (l : list ev) (g : cfg) (mid sid : N) (inp : input),
+  gate_unconditional gate = true ->
+  WfActs acts -> Interleave (map (act_events_x gate swf aok) acts) l -> In (APost g mid sid inp) acts ->
+  aok (CMessage mid) = true -> aok (CRunSpawned sid mid) = true ->
+  (forall r, aok (CRunEnded sid mid r) = true) ->
+  count_ck (is_end_of sid) l = 1%nat.
+Proof. exact one_end_per_spawn_x. Qed.
+Print Assumptions c07_lifecycle_complete_under_failing_side_writes.
+
+(* … right after the run's own terminal session frame and carrying its reason (c07_thread_order for every failure pattern) … *)
+Theorem c07_thread_order_under_failing_side_writes :
+  forall (gate : list side_write) (swf : N -> side_write -> bool) (aok : ck -> bool) (acts : list act) (l : list ev) (g : cfg) (mid sid : N) (inp : input),
+  gate_unconditional gate = true ->
+  WfActs acts -> Interleave (map (act_events_x gate swf aok) acts) l -> In (APost g mid sid inp) acts ->
+  (forall k, aok k = true) ->
+  exists pre q r,
+    filter (of_run sid) l
+    = EC (CRunSpawned sid mid) :: ES sid 0 SStarted :: pre ++ [ES sid q (SEnded r); EC (CRunEnded sid mid r)]
+    /\ mid_kinds (map snd (sess_stream sid pre)) = true
+    /\ ThreadShape sid mid (conts (filter (of_run sid) l)) r.
+Proof. exact thread_order_x. Qed.
+Print Assumptions c07_thread_order_under_failing_side_writes.
+
+(* … as built: at the gate the extractor reads from run_session on every run (the blocks around the append_run_ended call, the
+   use of write_snapshot's result; obligations gen_exit_gate_ok / gen_exit_gate_unconditional), the activities ARE the ones
+   every theorem above speaks about, whatever side writes fail *)
+Theorem c07_side_writes_as_built : forall (swf : N -> side_write -> bool) (aok : ck -> bool) (a : act),
+  act_events_x gen_exit_gate swf aok a = act_events aok a.
+Proof. exact (fun swf aok a => act_events_x_ungated gen_exit_gate swf aok a gen_exit_gate_unconditional). Qed.
+Print Assumptions c07_side_writes_as_built.
+
+(* "unconditional" cannot be weakened: EVERY non-empty gate is closed by one failing side write of it, and a run whose
+   gate is closed writes its terminal session frame (the session stream keeps its shape) and no run_ended, ever -
+   for every configuration, input, provider and tool behaviour *)
+Theorem c07_gated_run_is_never_ended :
+  forall (gate : list side_write), gate_unconditional gate = false ->
+  exists w, In w gate /\
+    forall (g : cfg) (sid mid : N) (aok : ck -> bool) (inp : input),
+      count_ck (is_end_of sid) (run_session_x gate (side_write_eqb w) g sid (Some mid) aok inp) = 0%nat
+      /\ SessionShape (sess_stream sid (run_session_x gate (side_write_eqb w) g sid (Some mid) aok inp)).
+Proof. exact gated_run_never_ended. Qed.
+Print Assumptions c07_gated_run_is_never_ended.
+
+(* REFUTED for a gate that holds the snapshot (`if let (Some(link), Ok(_)) = (continuity_run, snapshot)`): a run whose own
+   tool replaces <data>/snapshots by a regular file, then a plain prompt on the same thread - write_snapshot fails in both
+   runs; both are announced, both end their session, NEITHER gets its run_ended (under AppendOk).  Replayed on the real
+   code: corpus/C07/seeded_c07_9_tool_replaces_snapshot_dir.json (the oracle demands one run_ended for both) *)
+Theorem c07_run_ended_gated_by_snapshot_refuted :
+  exists swf acts l g1 mid1 sid1 inp1 g2 mid2 sid2 inp2,
+    WfActs acts /\ Interleave (map (act_events_x [SwSnapshot] swf all_ok) acts) l
+    /\ In (APost g1 mid1 sid1 inp1) acts /\ In (APost g2 mid2 sid2 inp2) acts /\ sid1 <> sid2
+    /\ count_ck (is_spawn_of mid1) l = 1%nat /\ count_ck (is_end_of sid1) l = 0%nat
+    /\ count_ck (is_spawn_of mid2) l = 1%nat /\ count_ck (is_end_of sid2) l = 0%nat.
+Proof. exact end_lost_when_snapshot_gates_refuted. Qed.
+Print Assumptions c07_run_ended_gated_by_snapshot_refuted.
+
 (* S6: freshness of the session id cannot be dropped either — two run_session tasks on ONE session id
    (what POST /sessions/{id}/input twice did before the repair) write two start frames at seq 0 *)
 Theorem c07_double_input_unfixed_refuted :
@@ -293,3 +357,10 @@ Example c07_failing_appends_demo :
            (IPrompt true [ROk [false] true [{| c_allowed := true; c_lock := true; c_tool := {| t_auto := 1; t_res := TDone 0 0 |} |}]; ROk [true] true []]))
   = [CSelection 100 200; CSideEffects 100].
 Proof. exact faulted_demo. Qed.
+
+(* the store of the refutation under the gate the code has: the tool run (snapshot directory replaced by a file) and the
+   next prompt run are both closed, each right after its own frames *)
+Example c07_failing_snapshot_demo :
+  Interleave (map (act_events_x EXIT_GATE swf_snapshot_dir_damaged all_ok) gated_acts) ungated_log
+  /\ conts ungated_log = [CMessage 7; CRunSpawned 1 7; CSideEffects 1; CRunEnded 1 7 R_COMPLETED; CMessage 8; CRunSpawned 2 8; CRunEnded 2 8 R_COMPLETED].
+Proof. exact ungated_facts. Qed.
